@@ -30,6 +30,9 @@ type wrapCfg struct {
 	Procs     []string `json:"procs"`
 	Blackbox  bool     `json:"blackbox"`
 	AllServed bool     `json:"allserved"`
+	// a cancelled caller that nothing holds at a gate must have returned when the step has settled, whatever else is
+	// still in progress (real-time scenarios with a completion parked in mid-release)
+	PromptCancel bool `json:"promptcancel"`
 }
 
 type ctorCase struct {
